@@ -1,4 +1,5 @@
 import Pcore.Proofs.TypeRT
+import Pcore.Proofs.TypedValRT
 /-!
 # C05 — Printing and parsing are inverse for types and literal values
 
@@ -27,9 +28,13 @@ Full statement / proved / missing
                        hypothesis carried by `Lit`), arrays and hashes of any size and nesting, parsing the
                        program-format text gives exactly that value back — through the real lexer model and the
                        recursive descent parser model, with the fuel `parseFile` supplies.
-                       Missing from the value statement: types as values and object instances (constructor-call forms
-                       `My::T('a' => 1)` need `ResolveDeferred`/`px.New`, which are not modelled) — checked on the
-                       implementation only (direct predicate `rt-val` with types, objects, Binary, SemVer, URI).
+* values holding types — `C05_typed_value_roundtrip`: for every value built from the kinds above AND types of the fragment
+                       (`TVal`: a type as an element, as a hash key, as a hash value, at any depth of nesting), the
+                       program-format text parses and `types.ResolveDeferred` (`resolveV`: every DeferredType of the parse
+                       result is resolved through the positional creators) gives exactly that value back.
+                       Missing from the value statement: object instances and the other constructor-call forms
+                       (`My::T('a' => 1)`, `Binary('AQ==')`, `SemVer('1.0.0')` need `px.New`, which is not modelled) —
+                       checked on the implementation only (direct predicate `rt-val` with objects, Binary, SemVer, URI).
 * layers 2–4, types  — `C05_type_roundtrip_partial`: for every type `t` of the modelled fragment in the normal form the
                        creators produce (`WFTy`): parsing the text `t` prints and resolving it through the positional
                        creators yields exactly `t` (hence a type equal to `t` that prints the same text again).
@@ -145,6 +150,11 @@ example (env : Env) (h : env.pf ['1', '.', '5'] = some 4609434218613702656) :
     Lit env (.arr [.float 4609434218613702656 ['1', '.', '5']]) := by
   simp only [Lit, LitL, and_true]
   exact ⟨fun k hk => nextToken_simple_float env.isLetter '1' [] '5' [] k (by decide) (by simp) (by decide) (by simp) hk, h⟩
+
+/-- **values holding types**: `resolveDeferred (parse (print v)) = v`.  `WFV env v`: as `Lit` for the scalar leaves (a float
+    leaf carries the formatter oracle's text), `WFTy` for every held type. -/
+theorem C05_typed_value_roundtrip (env : Env) (v : TVal) (h : WFV env v) : parseTVal env (syms (printTVal v)) = some v :=
+  typed_value_rt env v h
 
 /-! ### types -/
 
@@ -289,6 +299,25 @@ theorem C05_callable_leading_tuple :
   rw [hexpr, C05_value_roundtrip envEx _ hlit]
   simp only [resolve_tname, tyExprs_isEmpty, resolveArgs_tyExprs envEx _ hts]
   simp [createK, callableCreate, callableTupleForm, argTy]
+
+/-- non-vacuity of the typed-value theorem: types as array elements, as hash keys and values, nested containers, next to
+    scalar leaves with hostile strings -/
+def sampleTVal : TVal :=
+  .hash [(.ty (.int 1 2), .arr [.ty (.struct [(['a'], true, tyAny)]), .str ['\'', '\\'], .ty (.callable (some ([tyString], none)) none none)]),
+         (.str ['k'], .hash [(.ty (.wrap .optional (.strVal ['x'])), .ty (.typeRef ['M', 'y', ':', ':', 'T']))]),
+         (.arr [.ty tyString, .int 5], .undef)]
+example : WFV envEx sampleTVal := by
+  simp only [sampleTVal, WFV, WFVs, WFVEs, WFTy, WFTys, WFMs, WFOpt, CallableShape, sizeOK, inI64, i64min, i64max, tyAny,
+    tyString, envEx]
+  decide
+example : parseTVal envEx (syms (printTVal sampleTVal)) = some sampleTVal :=
+  C05_typed_value_roundtrip envEx sampleTVal (by
+    simp only [sampleTVal, WFV, WFVs, WFVEs, WFTy, WFTys, WFMs, WFOpt, CallableShape, sizeOK, inI64, i64min, i64max, tyAny,
+      tyString, envEx]
+    decide)
+example : printTVal sampleTVal =
+    "{Integer[1, 2] => [Struct[{'a' => Any}], '\\'\\\\', Callable[String]], 'k' => {Optional['x'] => TypeReference['My::T']}, [String, 5] => undef}".toList := by
+  decide +kernel
 
 /-- the four key forms of a Struct member: optional key + value accepting `undef` and required key + value refusing it
     print the bare name; the other two need `Optional['n']` / `NotUndef['n']` -/
